@@ -100,8 +100,12 @@ func (r *rule) compile() error {
 		escSL += `\`
 	}
 
+	// segStart tracks whether the next character begins a path segment.
+	segStart := true
 	for scan.Peek() != scanner.EOF {
 		ch := scan.Next()
+		atSegStart := segStart
+		segStart = string(ch) == sl
 		if ch == '*' {
 			if scan.Peek() == '*' {
 				// is some flavor of "**"
@@ -110,6 +114,7 @@ func (r *rule) compile() error {
 				// Treat **/ as ** so eat the "/"
 				if string(scan.Peek()) == sl {
 					scan.Next()
+					segStart = true
 				}
 
 				if scan.Peek() == scanner.EOF {
@@ -121,6 +126,13 @@ func (r *rule) compile() error {
 					// the .* will eat everything, even /'s
 					regStr += "(.*" + escSL + ")?"
 				}
+			} else if atSegStart && (scan.Peek() == scanner.EOF || string(scan.Peek()) == sl) {
+				// is a whole segment "*": it stands for a file or directory
+				// name, which is never empty. (If it could match the empty
+				// string then "dir/*" would also match "dir/", the form used
+				// to ask whether everything below dir is excluded, and whole
+				// subtrees would be pruned by a rule about direct children.)
+				regStr += "[^" + escSL + "]+"
 			} else {
 				// is "*" so map it to anything but "/"
 				regStr += "[^" + escSL + "]*"
